@@ -17,56 +17,88 @@ THEOREMS = [_T + n for n in [
     "C16_range_spec", "C16_index_unique", "C16_index_upper_edge", "C16_outside", "C16_index_spec",
     "C16_index_spec_determines", "C16_set_exact", "C16_set_value_at_pos", "C16_set_rejects",
     "C16_range_kernel", "C16_index_kernel", "C16_indexer_kernel", "C16_set_kernel", "C16_set_cell",
-    "C16_rule_at", "C16_count_robust"]]
+    "C16_rule_at", "C16_count_robust", "C16_call_forms", "C16_sig_extends", "C16_history", "C16_session"]]
 LEVEL_TEXT = ("Lean theorems over the rational model of create_range_dim / create_time_range / create_frequency_range "
               "(lattice, inside [start, stop), count for whole quotients and in general, step attribute; the trailing-point "
               "rule yields exactly n points whichever way rounding went inside arange, under an executable contract on "
               "numpy's output), of get_coord_index (the unique bin on a sorted axis, upper edge, raise or clamp outside; the "
               "executable statement determines the output) and of set_value_at_pos (end to end: an element holds the value "
-              "iff its multi-index is the bin of every queried position, every other element unchanged) hold for all inputs. "
+              "iff its multi-index is the bin of every queried position, every other element unchanged; over a session of "
+              "writes into one live array an element no call addressed keeps its content) hold for all inputs; the five "
+              "functions are one pure function of the content of their arguments, so an implementation with any state "
+              "agrees on every sequence of calls iff no reachable state changes an answer (C16_history); under a signature "
+              "table without repeated names every split of a call into positional arguments and keywords binds alike, "
+              "positional argument i to parameter i (C16_call_forms, C16_sig_extends). "
               "The straight-line code of all five functions around their library calls (step selection, the arange call, "
               "trailing-point guard and threshold, range test, clamp values, slice-bound side and offset, the indexer) is "
               "traced symbolically from the current source on every run and proved equal to the model's kernels for all "
-              "rationals (49 obligations, the lookup also on every axis of 2-D / 3-D arrays and on axes carrying a step "
-              "attribute, with stand-in arrays whose coordinates are registered in another order than their dimensions); "
-              "the library calls themselves are tied by exact differential runs (dyadic grids for ranges, arbitrary "
-              "floats for the comparison-only lookup, all small shapes for writes, and non-square 1-D to 3-D arrays built "
-              "along every construction path of xarray - coordinate order, transposition, dimensions without "
-              "coordinates, extra non-index coordinates, assign / Dataset / tuple forms, float32 / int64 axes - for "
-              "lookups and writes, the whole array compared after each write).")
+              "rationals (60 obligations: every way of giving the step, all-positional and all-keyword calls, the lookup "
+              "also on every axis of 2-D / 3-D arrays and on axes carrying a step attribute, with stand-in arrays whose "
+              "coordinates are registered in another order than their dimensions); the parameter tables of the five "
+              "functions are read off the imported code and proved to extend the documented tables (5 obligations); "
+              "the library calls themselves are tied by exact differential runs (dyadic grids for ranges incl. "
+              "tolerance-sized offsets around both thresholds and 2^k +- 1 coordinates, arbitrary floats for the "
+              "comparison-only lookup incl. every lattice point of non-dyadic axes of up to 4099 points, all small shapes "
+              "for writes, non-square 1-D to 3-D arrays built along every construction path of xarray, every call form) "
+              "and by histories in one process (requests and their neighbours with results poisoned and re-read, lookups "
+              "on arrays whose coordinates are re-assigned, sessions of writes), every step judged by the model.")
 LEVEL_NOTE = ("Unmodelled: binary64 rounding inside numpy arange (hypothesis of C16_count_robust, evaluated exactly on what "
               "np.arange returned for steps such as 0.1, 1/3, 1/44100 and for steps derived from size= / samplerate=; "
               "coordinates additionally within 2^-40 of the lattice), pandas get_slice_bound (modelled as #{c <= v}; known "
               "finding C16-2: on a float32 axis pandas casts the query value to float32 first), numpy broadcasting rules "
               "beyond right-aligned equal-or-1.  The symbolic ties cover arrays of up to three dimensions; len() of a "
               "stand-in array / index answers with an opaque large number (a branch on the length itself is followed as "
-              "for a long axis; axes of 1-6 points are the differential runs' business); float32 coordinates with "
-              "decimal steps are monitored from start 0 only (count, step attribute, lattice up to float32 rounding); "
+              "for a long axis; axes of 1-6 points and of 15 ... 4099 points are the differential runs' business); float32 "
+              "coordinates with decimal steps are monitored from start 0 only (count, step attribute, lattice up to "
+              "float32 rounding); Python's argument binding is modelled (bindParams) and trusted to be Python's; "
+              "histories are sampled sequences of 3-5 calls (C16_history says what they decide, it does not enumerate "
+              "them); whether set_value_at_pos writes in place or on a copy is not pinned (the array returned carries "
+              "the write, the array given holds afterwards the same content or exactly what it held before); "
               "create_*_dim_from_array and set_dim_attrs are outside the model.")
 TECHNIQUE = ("Lean 4 proof over model; symbolic-trace equality obligations for the kernels of the range constructors, "
-             "get_coord_index and set_value_at_pos; exact differential correspondence; numpy-contract monitor for arange rounding")
+             "get_coord_index and set_value_at_pos; signature-table obligations; exact differential correspondence incl. "
+             "histories judged step by step; numpy-contract monitor for arange rounding")
 RULE = ("range requests on dyadic grids (all quotient fractions 0, 1/4, 1/2, 3/4; int / numpy-scalar arguments, float32 "
-        "coordinates), decimal-step monitor (step=, size=, samplerate=), lookups on float axes of 1-6 points with queries at, "
-        "between, next to and beyond coordinates (float / numpy / int query values, float32 and int64 axes), lookups on "
-        "range-constructor axes inside and within / beyond one step outside (raise and clamp), lookups on every axis of 13 "
+        "coordinates; +- 2^-20 / 2^-30 / 2^-40 of the magnitude around whole and half quotients at magnitudes 0 ... 2^30; "
+        "15 ... 4097 coordinates), every call form (0 ... all positional) x way of giving the step x dtype (type / string / "
+        "numpy dtype / code) x name x further attributes x number types incl. the size, decimal-step monitor (step=, size=, "
+        "samplerate=), lookups on float axes of 1-6 points with queries at, between, next to, 1e-6 ... 1e-12 from and beyond "
+        "coordinates (float / numpy / int query values, float32 and int64 axes; flag as bool / int / numpy bool / omitted; "
+        "every call form), every lattice point of axes with steps 0.01, 1/44100 (1025 points), 0.1, 1/3 (257) and every "
+        "coordinate of axes of 2^k - 1, 2^k, 2^k + 1 ... 4099 points, lookups on "
+        "range-constructor axes inside and within / beyond one step outside (raise and clamp; dimension named by a string "
+        "or the Dimensions member), lookups on every axis of 13 "
         "non-square 2-D / 3-D shapes and writes on 14 shapes x every construction path (coordinate order, transposition, "
-        "dimensions without coordinates, extra coordinates, forms, dtypes), writes on every "
-        "shape with 1-3 axes of 1-3 points and a 4-D sample; non-trivial = the implementation returned a value; distinct = "
-        "distinct (operation, input)")
+        "dimensions without coordinates, extra coordinates, forms, dtypes, dimension names on other axes), writes on every "
+        "shape with 1-3 axes of 1-3 points and a 4-D sample; histories: range_history (120 / 1200 sequences of 3-5 requests - "
+        "a request, neighbours with the same numbers and another dtype / name / kind / call form / number type / "
+        "attributes or one number changed, the request again; returned Variables poisoned in place (data, attributes), "
+        "un-poisoned ones re-read at the end), index_history (160 / 1600 sequences of lookups; the array of the previous "
+        "step re-used after arr.coords[dim] = ..., arr[dim] = ..., assign_coords, coordinate.copy(data=...), isel; "
+        "coordinates, data and attributes of the array snapshot around every call), set_session (sessions of 3-5 writes "
+        "into one live array along the construction paths, coordinates re-assigned between calls, earlier queries "
+        "repeated, rejected calls in between; each step judged on the content read right before it); non-trivial = "
+        "the implementation returned a value; distinct = distinct (operation, input)")
 TRUSTED = ["numpy arange / pandas get_slice_bound / xarray indexes and get_axis_num (modelled, validated by correspondence)",
            "the stand-ins of harness/c16_sym.py answer like numpy / xarray where the kernels ask (np.arange raises on a zero "
            "step, Index.min / max are the range of an increasing axis, get_axis_num raises ValueError for an unknown dimension, "
            "indexes / coords list their keys in registration order - not the order of the dimensions -, coordinates carry an "
-           "attrs dict, len() is the size of the first axis / of the index)"]
+           "attrs dict, len() is the size of the first axis / of the index, copy() is the same array as a new object)",
+           "inspect.signature reports the parameters a call is bound to; SE.Axis.bindParams is Python's binding of "
+           "positional-or-keyword parameters"]
 ASSUMPTIONS = ["binary64 arithmetic is exact on the dyadic grids used for range requests",
                "step > 0 and start <= stop for range requests; axes increasing for lookups (the property's quantifier)",
                "the query value of a lookup is a number of the axis' dtype (on a float32 axis pandas casts a binary64 "
                "value to float32 first: known finding C16-2)"]
-NOT_COMPARED = ["error messages (only the error class)", "attributes other than `step`",
+NOT_COMPARED = ["error messages (only the error class)", "attributes other than `step` (also the further attributes a caller "
+                "passes: only that they do not disturb `step`, the name, the dtype and the coordinates)",
                 "range requests with non-representable steps: the result is fixed by C16_count_robust given numpy's arange "
                 "output (exact), plus lattice within tolerance, inside-ness and the step attribute (the rational model cannot "
                 "exhibit arange rounding)",
-                "whether set_value_at_pos returns the very array it was given (only its data, shape and coordinates)",
+                "whether set_value_at_pos returns the very array it was given and whether it writes in place (the docstring "
+                "says so; the property pins the content: the array returned must hold the model's content, the array given "
+                "the same content or bytewise what it held before the call, coordinates / attributes / the value argument "
+                "untouched)",
                 "lookups on an empty axis (the code returns -1, the model ValueError; outside the quantifier)"]
 
 
@@ -147,7 +179,11 @@ def _range_call(inp):
         return aty.get(field) if isinstance(aty, dict) else aty
     start, stop = _typed(f(inp["start"]), tyof("start")), _typed(f(inp["stop"]), tyof("stop"))
     step = _typed(f(inp.get("step")), tyof("step"))
-    kw = {"dtype": np.float32} if inp.get("dtype") == "float32" else {}
+    kw = {}
+    if inp.get("dtype") == "float32":       # `dtyform`: the same dtype written another way
+        kw = {"dtype": {"str": "float32", "npdtype": np.dtype("float32"), "code": "f4"}.get(inp.get("dtyform"), np.float32)}
+    elif inp.get("dtyform"):                 # the default dtype given explicitly
+        kw = {"dtype": {"str": "float64", "npdtype": np.dtype("float64"), "code": "f8"}.get(inp["dtyform"], float)}
     extra = dict(_EXTRA_ATTRS) if inp.get("attrs") else {}
     name = inp.get("name")
     form = inp.get("call")
@@ -204,7 +240,7 @@ def _impl_range(inp):
     return _range_canon(inp, _range_call(inp))
 
 
-_RANGE_HARNESS_KEYS = ("argty", "dtype", "call", "name", "attrs", "sizety")
+_RANGE_HARNESS_KEYS = ("argty", "dtype", "call", "name", "attrs", "sizety", "dtyform")
 
 
 def _holds_range(ctx, inp, out):
@@ -399,13 +435,19 @@ def _impl_index_dim(inp):
     n = len(coords)
     out = []
 
+    # the name of the dimension as a plain string and (every second lookup) as the library's own `Dimensions` member,
+    # a str subclass
+    names = [dim]
+    member = getattr(getattr(arrays, "Dimensions", None), dim, None)
+    if isinstance(member, str) and member == dim:
+        names.append(member)
+
     def look(q, raise_):
         try:
-            res = arrays.get_coord_index(arr, dim, q, raise_error=raise_)
+            res = arrays.get_coord_index(arr, names[len(out) % len(names)], q, raise_error=raise_)
             o = {"val": int(res)} if int(res) == res else {"raise": "crash:not-an-int"}
         except Exception as e:  # noqa: BLE001
-            from ..core import canon_exc
-            o = canon_exc(e)
+            o = _axis_exc(e)
         out.append([rat(q), o, raise_])
 
     for i in range(n):
@@ -1533,6 +1575,14 @@ def _range_form_cases(rng):
                 if "samplerate" in whole and "step" not in whole:
                     whole["samplerate"] = "1"
                 yield dict(whole, call=form, argty=ty)
+    # the dtype written as a type, a string, a numpy dtype, a type code; the default dtype given explicitly
+    for kind, how in reqs:
+        for dtyform in ("str", "npdtype", "code", "builtin"):
+            for dtype in (None, "float32"):
+                c = {"kind": kind, "start": "1/2", "stop": "2", **how, "dtyform": dtyform, "call": rng.choice([0, 3, 6])}
+                if dtype:
+                    c["dtype"] = dtype
+                yield c
     # the size as int / numpy int / whole float, with a step that is no whole number, every number type of the bounds
     for sizety in (None, "npint", "np32int", "float", "np64"):
         for ty in (None, "int", "npint", "np64"):
@@ -1789,8 +1839,10 @@ def _sig_table(fn):
 
 def _stage_signatures(ctx):
     """Tie 1: the parameter tables of the five functions (order, names, defaults), read off the imported functions,
-    are the documented tables `rangeSig` … `setSig` of the Lean model; `C16_call_forms` is the general theorem about
-    such tables (every positional / keyword split of a call binds alike, positional argument i goes to parameter i)"""
+    are the documented tables `rangeSig` … `setSig` of the Lean model, possibly followed by further parameters that
+    have defaults (`Sig.Extends`), without a repeated name; `C16_call_forms` is the general theorem about such tables
+    (every positional / keyword split of a call binds alike, positional argument i goes to parameter i),
+    `C16_sig_extends` says an extended table binds the documented calls as the documented table does"""
     from soundevent import arrays
     for fname, ref, op in (("create_range_dim", "rangeSig", "range_dim"), ("create_time_range", "timeSig", "range_dim"),
                            ("create_frequency_range", "freqSig", "range_dim"), ("get_coord_index", "indexSig", "coord_index"),
@@ -1807,7 +1859,8 @@ def _stage_signatures(ctx):
             ctx.fail("obligation", name, detail=f"the signature of {fname} cannot be read off as a table of "
                      "positional-or-keyword parameters", extra={"op": op})
             continue
-        ctx.obligation(name, f"theorem {name} : {term} = SE.Axis.{ref} ∧ SE.Axis.Sig.WellFormed {term} := by decide", {"op": op})
+        ctx.obligation(name, f"theorem {name} : SE.Axis.Sig.Extends {term} SE.Axis.{ref} = true ∧ "
+                             f"SE.Axis.Sig.WellFormed {term} := by decide", {"op": op})
 
 
 def _stage_call_forms(ctx):
